@@ -47,11 +47,12 @@ type oracle struct {
 	durable  map[int]bool   // material whose accepted revocation has a durable record
 	lostBy   map[int]string // durable record destroyed by: tombstone-unreadable | state-unreadable (open error or undecodable)
 	stateBad bool           // state file was replaced by garbage and not yet rewritten
+	flagged  map[kid]string // keys already reported by the hold-down clause, with the reason
 }
 
 func newOracle(cfg []kref) *oracle {
 	o := &oracle{cfg: map[kid]bool{}, streak: map[kid]int64{}, broken: map[kid]string{}, earned: map[kid]bool{},
-		durable: map[int]bool{}, lostBy: map[int]string{}}
+		durable: map[int]bool{}, lostBy: map[int]string{}, flagged: map[kid]string{}}
 	for _, k := range cfg {
 		o.cfg[k.kid()] = true
 	}
@@ -484,6 +485,10 @@ func (o *oracle) after(s *sim, sp *runSpec, pre *preState, outcome string) (stri
 						}
 					}
 				}
+				if w, ok := o.flagged[k.kid()]; ok {
+					why = w // same root cause as when this key was first reported
+				}
+				o.flagged[k.kid()] = why
 				t0, ok := o.streak[k.kid()]
 				flag(fail("autota/add-holddown/"+why, "%s streak=%v since=%d now=%d", k, ok, t0, o.now))
 			}
@@ -514,7 +519,7 @@ func (o *oracle) after(s *sim, sp *runSpec, pre *preState, outcome string) (stri
 
 	// ---- clause: a key that merely disappears stays trusted for 90 days
 	if accepted && full && completed && !(failClosedMandated && len(liveAfter) == 0) {
-		for _, k := range trusted {
+		for _, k := range pre.liveAtFetch { // keys validation was trusting when the refresh began
 			if hasKey(sp.fetch, k.id, k.flags) || hasInt(revokedNow, k.id) || o.durable[k.id] {
 				continue
 			}
@@ -532,7 +537,7 @@ func (o *oracle) after(s *sim, sp *runSpec, pre *preState, outcome string) (stri
 	}
 	// a trusted key that is present in a fully authenticated refresh stays trusted
 	if accepted && full && completed && !(failClosedMandated && len(liveAfter) == 0) {
-		for _, k := range trusted {
+		for _, k := range pre.liveAtFetch { // keys validation was trusting when the refresh began
 			if hasKey(sp.fetch, k.id, k.flags) && !hasInt(revokedNow, k.id) && !o.durable[k.id] && !tbBefore[k.id] && !markerFor(stBefore, k.id) &&
 				!hasKey(liveAfter, k.id, k.flags) {
 				flag(fail("autota/present/trusted-key-dropped", "%s live=%s", k, joinRefs(liveAfter)))
